@@ -38,8 +38,13 @@ func preds(self int) []predicate {
 	return []predicate{all, all, only(kA), none}
 }
 
-func TestC05AcceptAndContinuity(t *testing.T) {
-	const sub = "C05.accept_and_continuity"
+func TestC05AcceptAndContinuity(t *testing.T) { acceptAndContinuity(t, "C05.accept_and_continuity") }
+
+// The same histories decide C02's first clause at channel level: whatever a channel hands to the application came
+// from the peer it authenticated and accepted - in particular nothing from a peer it refused (whose session may linger).
+func TestC02RefusedPeerData(t *testing.T) { acceptAndContinuity(t, "C02.refused_peer_data") }
+
+func acceptAndContinuity(t *testing.T, sub string) {
 	ev.Rule(sub, "rapid: channel A wired to channel B and to an intruding channel C with another key (A's output reaches both, theirs reach A); acceptance predicates per side from {all, none, only one key}; initiators from {A, B, both, C} with generated start offsets; the intruder starts before/during or after establishment; optional short rekey interval followed by a second round; optionally the wire loses every RespDone (handshakes complete through data); optionally a short keep-alive with an idle period before the intruder arrives (the established session is retired for idleness, the pinned key must survive). Real timers, handshake backoff 5 ms, observation window 300 ms per blocked call. Oracle: a channel never returns nil from Send, never delivers data, never emits a data-range ciphertext and never reports a RemoteKey for a key its predicate rejects; RemoteKey never changes once set; mutually accepting pairs (with no competing acceptable intruder) establish and still exchange tagged messages both ways after the intrusion; an intruder is refused once the channel is bound to another key. non-trivial = rejecting predicate on an initiating or responding side, or an intrusion after establishment; distinct by (predicates, initiators, timing class)")
 	rapid.Check(t, func(t *rapid.T) {
 		pa := rapid.SampledFrom(preds(kA)).Draw(t, "acceptA")
